@@ -86,6 +86,35 @@ def sibling_of(x):
     return x
 
 
+def obs_lens(ty, acc=None):
+    """the lengths an observed target type states (fixed-length sequences), in order"""
+    acc = [] if acc is None else acc
+    if isinstance(ty, dict):
+        if ty.get("k") == "seq" and ty.get("n"):
+            acc.append(ty["n"])
+        for v in ty.values():
+            if isinstance(v, dict):
+                obs_lens(v, acc)
+            elif isinstance(v, list):
+                for x in v:
+                    obs_lens(x, acc)
+    return acc
+
+
+def rust_lens(t, acc=None):
+    acc = [] if acc is None else acc
+    if isinstance(t, dict):
+        if t.get("k") == "array":
+            acc.append(t.get("len", 3))
+        for v in t.values():
+            if isinstance(v, dict):
+                rust_lens(v, acc)
+            elif isinstance(v, list):
+                for x in v:
+                    rust_lens(x, acc)
+    return acc
+
+
 def with_lengths(x):
     """the builder's sibling tree, arrays given the sibling's length"""
     if not isinstance(x, dict):
@@ -241,7 +270,8 @@ def run_trees(chk, cases, configs=("base",), positions=("field", "vfield", "payl
                     events.append({"lang": lang, "pos": pos, "rust": tree, "default": bool(bare) and pos in ("field", "vfield"),
                                    "optional": bool(opt), "ty": ty, "prefix": pfx, "mapping": mapping, "aliases": al,
                                    "vecu8": VECU8[lang] if cname == "mapped_container" else "",
-                                   "noptr": cname == "lang_options" and lang == "go", "renames": RENAMES})
+                                   "noptr": cname == "lang_options" and lang == "go", "renames": RENAMES,
+                                   "fixed_lens": obs_lens(ty), "rust_lens": rust_lens(tree)})
                     meta.append((lang, cname, pos, tree, da, src, None, ci))
     return events, meta
 
